@@ -455,7 +455,7 @@ def VALUE(K=0, horizon=6, ops=None):
 def VALUE_HOLD(K=0, horizon=5, ops=None):
     '''Value booked by user code on items that are waiting in a device (the source's output slot while the line is
     full, a machine's part in process): worth at supply / receipt is the worth at that moment.'''
-    devs = [src('S', 1, pattern=[None, 2], values=[5, 3]), proc('P', ['S'], 2, dv=1), sink('K', ['P'])]
+    devs = [src('S', 1, pattern=[None, 2], values=[5, 3]), proc('P', ['S'], 2, dv=1), sink('K', ['P'], 0, recv_dv=-2)]
     if ops is None:
         ops = [('revalue', 'S', 2), ('revalue', 'P', -1), ('fail', 'P', 0)]
     return spec(f'VALUEHOLD[K{K}]', devs, horizon, ops, K)
